@@ -13,7 +13,8 @@ CHECKS = {
              "the client sent; spa block, client block, start and length symbolic, and per attempt an arbitrary sequence "
              "of delivered datagrams (each any segment of the chain: loss, duplication, re-ordering). Success => requested "
              "bytes are the spa's and no foreign byte (skolem index); failure => block object untouched; <= retry count "
-             "requests with fresh sequence numbers; fault-free twin succeeds for every (start,length).",
+             "requests with fresh sequence numbers; fault-free twin succeeds for every (start,length); two transfers in a row on "
+             "one threaded structure, the first dying by time-out after a prefix.",
         note="Bounded: <=2 segments/2 deliveries per attempt/2 attempts (quick), <=3/3/2 (thorough); fault-free twin for "
              "length <=200 (quick) / <=390 (thorough). Timeout scaled to 3 polls (config data, not code).",
         ref="5/C01"),
@@ -22,15 +23,19 @@ CHECKS = {
              "MaxItems, mask, RW) is decided once through the real _set_value/async_set_value/_get_value of the shipped "
              "accessor object with a symbolic position, a symbolic 1024-byte block and a symbolic value (all labels, "
              "booleans, 0..255, 0..65535, hh:mm, string forms); every item is mapped to its signature and its concrete "
-             "position checked. Exhaustive over data, no bound.",
-        note="Reference device model = big-endian store; independent field-width rule; temperature values are decided "
-             "in IEEE-754 by C14's units. Known findings: PurgeDelayTimer (no MaxItems), WaterDetected (pos 2658).",
+             "position checked. Multi-step units: write / sibling bits change on the spa / write again per bit-field shape, "
+             "the same tag through two tables; the temperature accessor's read->write-back lemma over all 65536 words on "
+             "both write paths in IEEE-754 (z3 FP). Exhaustive over data, no bound; thorough adds every pair of "
+             "overlapping items of a table.",
+        note="Reference device model = big-endian store; independent field-width rule; decimal temperature inputs are "
+             "C14's. Known findings: PurgeDelayTimer (no MaxItems), WaterDetected (pos 2658).",
         ref="5/C02"),
     "C03": dict(
         text="Real replace_status_block_segment (both structure classes), status_block_changed and Observable on a "
              "symbolic old block, a symbolic patch (offset, 1..4 bytes) and one shipped accessor per shape at a symbolic "
              "position; the oracle (notify iff decoded value changed, once per distinct observer, old/new arguments, "
-             "observers see the new block) uses an independent reference decoder. All watch/unwatch scripts of <=4 ops.",
+             "observers see the new block) uses an independent reference decoder. Three updates in a row with a unit "
+             "switch between two updates of a temperature. All watch/unwatch scripts of <=4 ops with updates inside.",
         note="Bounded: patch <= 4 bytes, enums <= 9 labels (quick) / all (thorough), two observers; floats compared via "
              "the ratio abstraction justified by C14's monotone lemma.",
         ref="5/C03"),
@@ -40,7 +45,8 @@ CHECKS = {
              "decoded by the peer's handle (attributes equal inputs). Packet framing is decided with fully symbolic "
              "identifiers and payload: the regular expression the code passes to re.search is turned into an exact "
              "term-level model of CPython's leftmost/greedy/lazy matching (sx/rx.py), so a payload that shifts the split "
-             "is found by the solver and replayed on the real re. Reply addressing on symbolic identifiers.",
+             "is found by the solver and replayed on the real re (also when the pattern is compiled at import time). Reply "
+             "addressing on symbolic identifiers; names through the configured encoding (latin-1 / UTF-8 model).",
         note="Bounded: framing payload <= 40 (quick) / <= 48 (thorough) bytes, segment payload lengths sampled in quick and "
              "0..255 in thorough, <=2/3 reminder records, names <= 3 bytes; FILES is an exhaustive concrete loop over the "
              "895 shipped combinations. Known findings: SETWC and WCREQ are claimed by no standard handler.",
@@ -58,8 +64,9 @@ CHECKS = {
              "what arrives before every poll (nothing / matching reply / foreign datagram), number of callers, their start "
              "slots and which requests are answered are symbolic choices explored exhaustively; transmissions <= retry "
              "count, each attempt freshly built, the handler is returned iff a reply was delivered for it, completion "
-             "within retry x (timeout+pause+poll), one request in flight, FIFO service, all callers complete; the five "
-             "connection gates with a symbolic real ping age.",
+             "within retry x (timeout+pause+poll), one request in flight, FIFO service, all callers complete; a holder "
+             "ending abnormally; the real ping loop and the five connection gates with a symbolic real ping age; the "
+             "library's own call sites with lost replies or a busy connection and symbolic counters.",
         note="Bounded: retry <= 2/3, <= 2/3 callers, timeouts scaled to 3 polls; loop stalls not modelled as unbounded "
              "delays.",
         ref="5/C06"),
@@ -69,7 +76,7 @@ CHECKS = {
              "pre-state with a symbolic head datagram - a capable consumer takes the head exactly once and clears the mark, "
              "an incapable one changes nothing; the unhandled consumer's two segments against the four interference "
              "classes; framed packets with symbolic identifiers, foreign sender or malformed inner framing (also right "
-             "after a valid packet) have no effect; a 6-segment run of the real unhandled consumer against an arbitrary "
+             "after a valid packet) have no effect; an application callback that suspends; a 6-segment run of the real unhandled consumer against an arbitrary "
              "environment bounds the time a datagram spends at the head.",
         note="Bounded datagram lengths; whole-system statement follows from the atomicity of segments between suspending "
              "awaits (assumption).",
@@ -80,9 +87,11 @@ CHECKS = {
              "docstrings; invariants re-established (CONNECTED only with a live facade on a connected spa, facade only with "
              "a connected spa), ready/teardown bracket conditions and status text at every delivery; real async_reset "
              "(three entry points) from every state; locate and connect brackets around phase doubles that return, raise "
-             "or emit any allowed sub-event prefix; pairs of concurrent runtime events with a suspending client handler.",
+             "or emit any allowed sub-event prefix or are cancelled; reset issued from the spa's own task; pairs of concurrent "
+             "runtime events with a suspending client handler.",
         note="Control-state exploration by the engine's exhaustive choice mechanism (data is symbolic only for radio "
-             "values); inductive for sequential histories; concurrency covered for event pairs from CONNECTED only. "
+             "values); inductive for sequential histories; concurrency covered for event pairs (thorough: also from the error "
+             "states). "
              "I/O phases and the facade constructor are doubles.",
         ref="5/C08"),
     "C11": dict(
@@ -99,8 +108,9 @@ CHECKS = {
         text="Real GeckoAsyncFacade.__init__/_scan_outputs and the threaded GeckoFacade._on_connected/scan_outputs on blocks "
              "whose output-configuration items are symbolic over every label and out-of-range byte (one output of every "
              "label-list class, two outputs of the same class; thorough adds class pairs and triples), for one "
-             "representative of every inventory-relevant table signature. Oracle: independent set-based rule in table "
-             "order; pump demand/mode lists, classes, sensors, distinct keys/unique ids, lookup by key.",
+             "representative of every inventory-relevant table signature; three outputs of one class over the pump labels. "
+             "Oracle: independent set-based rule over the tables' own key lists, in table order; pump demand/mode lists, "
+             "classes, sensors, distinct keys/unique ids, lookup by key, a second facade, re-scan after re-wiring.",
         note="Bounded in the number of simultaneously symbolic outputs (2 quick / 3 thorough); other bytes zero. "
              "PYTHONHASHSEED fixed by ./run. Known findings: three table families cannot build a facade at all.",
         ref="5/C12"),
@@ -110,7 +120,8 @@ CHECKS = {
              "GeckoAsyncUdpProtocol.get on a virtual loop; a reference spa applies the write or key press and echoes a "
              "STATP that the real handler installs. Symbolic: the current state of the items the command touches, the "
              "argument, both counters. Exactly one well-formed command with pack type, versions and command-range "
-             "sequence, the item reads the requested value after the echo, no datagram when already in the requested state.",
+             "sequence, the item reads the requested value after the echo, no datagram when already in the requested state; "
+             "three-command sequences on pump demands sharing a word; watercare from any prior belief of the client.",
         note="One command per path; wiring from the 6 configurations of the 34 shipped snapshots; three concrete "
              "temperature arguments per unit (all decimals are C14's); reference spa semantics are an assumption.",
         ref="5/C13"),
@@ -127,8 +138,9 @@ CHECKS = {
              "reflection; real GeckoAsyncFacade._on_config_device_change on symbolic pump/blower states (active iff some "
              "pump or blower is on); real config_sleep, asyncio.wait and asyncio.sleep on a virtual loop whose clock is a "
              "z3 Real: start offsets, delays and switch instants are free reals and every timer ordering is explored - "
-             "each sleeper wakes exactly at min(deadline, first switch inside its sleep).",
-        note="Bounded: <=2 sleepers/1 switch (quick), <=3/2 (thorough); clock readings are mathematical reals; distinct "
+             "each sleeper wakes exactly at min(deadline, first switch inside its sleep), also when it sleeps again at once "
+             "across two switches.",
+        note="Bounded: <=2 sleepers/1 switch and 2 looping sleepers/2 switches (quick), <=3/2 (thorough); clock readings are mathematical reals; distinct "
              "events at distinct instants.",
         ref="5/C17"),
     "C18": dict(
@@ -137,7 +149,8 @@ CHECKS = {
              "commit, on a symbolic block, position and value (read, write triple, writability), per pinned record shape; "
              "items whose declaration differs from the pinned record are compared at their concrete positions, so any "
              "layout change yields a concrete block on which old and new decode differently. Plus addressability of every "
-             "item, key lists, module attributes, file naming and the FILES naming round trip.",
+             "item, key lists, module attributes, file naming and the FILES naming round trip; the naming a spa reports is "
+             "mapped to the declaring modules by both clients (differing versions; two platforms with equal numbers).",
         note="Pinned layout generated by ast from commit 236b7b1; new modules allowed. Side conditions on module "
              "attributes/keys/naming are finite concrete comparisons. Known findings: PurgeDelayTimer, WaterDetected.",
         ref="5/C18"),
@@ -147,15 +160,16 @@ CHECKS = {
              "(duplicates, both orders), symbolic name bytes (any latin-1 byte incl. '|'), identifier / address filters. "
              "Each answering spa listed once with identifier, name and address intact, only the requested identifier, "
              "upper and lower bounds on the return time for every case, endpoint closed once, no LOC task or broadcast "
-             "afterwards; the threaded locator's de-duplication step.",
+             "afterwards, also with event handlers that suspend; the threaded locator's de-duplication step.",
         note="Bounded: <=2/3 replies, 4 arrival slots, 2 spas, names <=2 bytes; discovery timeouts scaled to 6 polls.",
         ref="5/C15"),
     "C16": dict(
         text="One inductive step of both real sequence-counter implementations from an arbitrary in-range pre-state "
              "(covers every call history), and the sequence byte of every real request factory of the async and the "
-             "threaded client with symbolic counters; every path decided by z3, exhaustive.",
-        note="Bit-vector model of Python ints with discharged no-overflow obligations; threaded access is covered by a "
-             "lock-discipline argument (every counter access under the socket lock), not by encoding preemption.",
+             "threaded client with symbolic counters; a second (thorough: third) thread's call stepped in at every lock "
+             "boundary of the threaded counter; instance independence and a long run through the public API.",
+        note="Bit-vector model of Python ints with discharged no-overflow obligations; preemption only at lock "
+             "boundaries (between them the lock discipline - every counter access under the socket lock - is asserted).",
         ref="5/C16"),
 }
 
@@ -164,10 +178,11 @@ CHECKS["C19"] = dict(
          "characters) and distinct version fields, and the real GeckoSnapshot.parse reads the lines back: its 15 regular "
          "expressions (parsed by CPython's re._parser) run in a backtracking matcher with CPython's semantics that is "
          "itself executed on the symbolic text, so cross-talk between a name and any pattern is found by the solver. One "
-         "data element over every byte value, whole blocks concretely; traffic-log reassembly for non-uniform segment "
-         "sizes; every shipped snapshot file is parsed, loaded into the real simulator and served back unchanged.",
-    note="Bounded: names <= 3 (quick) / 4 (thorough) characters; version digits concrete; traffic-log clause for quote-free "
-         "blocks only; shipped-file clause is a concrete run. Known finding: bracketed snapshot names.",
+         "data element over every byte value, whole blocks concretely and through a real log file; two traffic logs in a row "
+         "with non-uniform segment sizes on a block holding every quote/backslash pair and bracketed runs; every shipped "
+         "snapshot file is parsed, loaded into the real simulator (fresh, and one instance for all) and served back unchanged.",
+    note="Bounded: names <= 3 (quick) / 4 (thorough) characters; version digits concrete; traffic-log and shipped-file "
+         "clauses are concrete runs over choices of segmentation. Three defects found here are fixed in /repo.",
     ref="5/C19")
 
 CHECKS["C20"] = dict(
@@ -176,10 +191,11 @@ CHECKS["C20"] = dict(
          "queue, send instant stamped => FIFO and pacing by induction) plus a multi-iteration pacing run; first-match "
          "dispatch over <=4 handlers with symbolic accept/raise behaviour and exception isolation; the life of a real "
          "request handler over a stepped engine loop with free timeout, retry count, time steps and answer instant "
-         "(exactly N retransmissions then removal / removal at the answer and silence afterwards); the blocking client's "
-         "real handshake against the real simulator under symbolic loss bits.",
+         "(exactly N retransmissions then removal / removal at the answer and silence afterwards), also behind a send "
+         "backlog; a cross-thread add between the two locked sections of the cleanup; the blocking client's real handshake "
+         "against the real simulator under symbolic loss bits, a lost status segment and 0..3 lost requests per step.",
     note="Engine iterations stepped in _thread_func order, no real threads; socket double; handshake on the concrete "
-         "default snapshot with 5 (quick) / 8 (thorough) loss bits.",
+         "default snapshot with 5 (quick) / 8 (thorough) loss bits. One defect found here is fixed in /repo.",
     ref="5/C20")
 
 NOT_APPLICABLE = {
